@@ -74,3 +74,56 @@ def effective_after_setopt(o, k, nd, force):
                    ite(dhas(o.cmd_options, k), dval(o.cmd_options, k),
                        ite(dhas(o.file_options, k), dval(o.file_options, k),
                            ite(dhas(o.default, k), dval(o.default, k), nd)))))
+
+
+@contract('droop.options.Options.record', props=['C17'])
+def options_record(self: 'Options') -> 'ref:dict':
+    """the record reports the layers: a new dictionary holding a copy of each of the five option dictionaries
+    and, under 'options', for every name the effective value by precedence"""
+    requires(opt_inv(self))
+    ensures(fresh(result))
+    ensures(and_(dict_has_ref(result, 'cmd'), dict_copy_of(dref(result, 'cmd'), self.cmd_options)), name="'cmd' layer reported")
+    ensures(and_(dict_has_ref(result, 'file_options'), dict_copy_of(dref(result, 'file_options'), self.file_options)),
+            name="'file_options' layer reported")
+    ensures(and_(dict_has_ref(result, 'default'), dict_copy_of(dref(result, 'default'), self.default)), name="'default' layer reported")
+    ensures(and_(dict_has_ref(result, 'force'), dict_copy_of(dref(result, 'force'), self.force)), name="'force' layer reported")
+    ensures(and_(dict_has_ref(result, 'allowed'), dict_copy_of(dref(result, 'allowed'), self.allowed)), name="'allowed' reported")
+    ensures(dict_has_ref(result, 'options'))
+    ensures(forall('any', lambda k: iff(dhas(dref(result, 'options'), k),
+                                        or_(dhas(self.force, k), dhas(self.cmd_options, k), dhas(self.file_options, k),
+                                            dhas(self.default, k)))),
+            name="'options' has exactly the names of the four layers")
+    ensures(forall('any', lambda k: implies(dhas(dref(result, 'options'), k),
+                                            any_same(dval(dref(result, 'options'), k), effective(self, k)))),
+            name="'options' reports the effective value by precedence")
+    ensures(forall('any', lambda k: implies(dhas(result, k),
+                                            or_(any_is_str(k, 'cmd'), any_is_str(k, 'file_options'), any_is_str(k, 'default'),
+                                                any_is_str(k, 'force'), any_is_str(k, 'allowed'), any_is_str(k, 'options')))),
+            name='no other entries')
+    modifies()
+
+
+@contract('droop.options.Options.unused', props=['C17'])
+def options_unused(self: 'Options') -> 'abs:any':
+    "the unused options: given by the caller or the ballot file, never asked for by the rule (rule and path excepted)"
+    requires(opt_inv(self))
+    ensures(forall('any', lambda k: iff(any_mem(result, k),
+                                        and_(or_(dhas(self.file_options, k), dhas(self.cmd_options, k)),
+                                             not_(any_is_str(k, 'rule')), not_(any_is_str(k, 'path')),
+                                             not_(dhas(self.default, k))))),
+            name='exactly the supplied names the rule never set up')
+    modifies()
+
+
+@contract('droop.options.Options.overrides', props=['C17'])
+def options_overrides(self: 'Options') -> 'abs:any':
+    "the overridden options: forced by the rule while the caller or the ballot file asked for a different value"
+    requires(opt_inv(self))
+    ensures(forall('any', lambda k: iff(any_mem(result, k),
+                                        and_(dhas(self.force, k),
+                                             or_(dhas(self.cmd_options, k), dhas(self.file_options, k)),
+                                             not_(any_eq(ite(dhas(self.cmd_options, k), dval(self.cmd_options, k),
+                                                             dval(self.file_options, k)),
+                                                         dval(self.force, k)))))),
+            name='exactly the forced names for which a different value was supplied (command line over ballot file)')
+    modifies()
